@@ -34,7 +34,8 @@ RULE = ('Model-based stateful testing of Client / AsyncClient on the real '
         'connected namespace, nothing survives into the next connection). '
         'Non-trivial: >=2 namespaces with different fates, or a fault '
         'between a binary header and its attachment, or a second connection '
-        'after a fault.')
+        'after a fault. Application faults: a disconnect handler that raises '
+        'or (asyncio) ends in CancelledError at its k-th invocation.')
 ASSUMPTIONS = [
     'reconnection is disabled here (C10 covers it)',
     'the disconnect-once clause is judged only when every requested '
